@@ -66,6 +66,8 @@ ROOT_MODULES = [
     "syne_tune.blackbox_repository.simulated_tabular_backend",
     "syne_tune.blackbox_repository.blackbox_tabular",
     "syne_tune.backend.trial_status",
+    "syne_tune.optimizer.schedulers.multiobjective.multi_surrogate_multi_objective_searcher",
+    "syne_tune.optimizer.schedulers.searchers.bayesopt.models.sklearn_model",
 ]
 # modules whose classes are supplied by the USER of a scheduler (configuration spaces, trials): instances exist
 ENV_MODULES = ["syne_tune.config_space", "syne_tune.backend.trial_status"]
@@ -104,6 +106,14 @@ CONFIGS = {
                         "syne_tune.results_callback.StoreResultsCallback"],
                        {"searcher_name": "random", "self._seed": NOTNONE, "seed": NOTNONE}),
 }
+# multi-objective model-based searcher with user-supplied (sklearn-style) surrogates, seeded through either route
+# (random_seed or random_seed_generator): random_seed itself is NOT fixed here
+CONFIGS["mo_multisurrogate"] = (
+    [SCHED + "multiobjective.multi_surrogate_multi_objective_searcher.MultiObjectiveMultiSurrogateSearcher",
+     SCHED + "searchers.bayesopt.models.sklearn_model.SKLearnEstimatorWrapper",
+     SCHED + "searchers.bayesopt.sklearn.estimator.SKLearnEstimator",
+     SCHED + "searchers.bayesopt.sklearn.predictor.SKLearnPredictor"],
+    {"random_seed": "<unfixed>"})
 MODEL_FREE = ["fifo_random", "fifo_grid", "fifo_rea", "hyperband_random", "synchb_random", "dehb", "pbt", "msr"]
 # random_seed is given; the clock is an explicit input (a TimeKeeper object is passed to the scheduler)
 COMMON_FIX = {"random_seed": NOTNONE, "time_keeper": NOTNONE, "self.time_keeper": NOTNONE}
@@ -1018,6 +1028,17 @@ class BodyVisitor:
         else:
             self.visit(f, sc, lits)
         fname = f.id if isinstance(f, ast.Name) else (f.attr if isinstance(f, ast.Attribute) else None)
+        # a *seed* argument taken from a dict lookup (kwargs.get("random_seed")) may be None; harmless only when the
+        # same call also forwards the generator route (random_seed_generator=...), as the searcher constructors do
+        kw_names = [k.arg for k in n.keywords if k.arg]
+        for k in n.keywords:
+            if k.arg and "seed" in k.arg.lower() and "generator" not in k.arg.lower() \
+                    and isinstance(k.value, ast.Call) and isinstance(k.value.func, ast.Attribute) \
+                    and k.value.func.attr == "get" and len(k.value.args) == 1 \
+                    and not any("seed_generator" in x for x in kw_names):
+                A.eff(sc.node, "UnseededGenerator", lits, "%s %s=%s may be None and the generator route is not "
+                      "forwarded" % (self.where(sc, n), k.arg, ast.unparse(k.value)[:40]),
+                      tag="%s(%s=%s)" % (fname, k.arg, ast.unparse(k.value)[:40]))
         if fname == "partial":
             A.stats["functools_partial_sites"] = A.stats.get("functools_partial_sites", 0) + 1
         if isinstance(f, ast.Attribute) and f.attr not in A.methods_by_name and isinstance(f.value, ast.Name):
@@ -2030,6 +2051,7 @@ def config_roots(A, cfg):
 def config_off(A, cfg):
     env = dict(COMMON_FIX)
     env.update(CONFIGS[cfg][1])
+    env = {k: v for k, v in env.items() if v != "<unfixed>"}
     off = []
     for key, (tid, t) in A.tests.items():
         v = eval_test(t, env)
